@@ -27,6 +27,7 @@ PLANS = []
 for _v in SUPPORTED + UNSUPPORTED:
     for _ot in gen.OTYPES:
         PLANS.append(('ops', _v, _ot))
+PLANS.append(('engine_direct', (1, 2), None))
 for _v in SUPPORTED:
     PLANS.append(('discover', _v, None))
     PLANS.append(('query', _v, None))
@@ -293,6 +294,73 @@ def execute(plan):
                             flag('discovered-version-not-accepted',
                                  why=str(v))
                 nontrivial = True
+        elif plan['kind'] == 'engine_direct':
+            # The decoder refuses every request in a version it has no
+            # enumeration for, so on the wire the engine's own version
+            # check is never the deciding one. Drive the engine's public
+            # entry directly (as the session does after decoding) with
+            # request objects in unsupported versions: repeated, alternating
+            # and after supported ones.
+            from kmip.core import enums as E_
+            from kmip.core import exceptions as X_
+            from kmip.core.messages import contents, messages, payloads
+            for st in c13.setup_steps('SymmetricKey', 'Active', r, ctx):
+                W.request(copy.deepcopy(st))
+
+            def direct(v, what):
+                hdr = messages.RequestHeader(
+                    protocol_version=contents.ProtocolVersion(v[0], v[1]),
+                    batch_count=contents.BatchCount(1))
+                if what == 'Query':
+                    pl = payloads.QueryRequestPayload(
+                        [E_.QueryFunction.QUERY_OPERATIONS])
+                    opn = E_.Operation.QUERY
+                else:
+                    pl = payloads.DestroyRequestPayload(
+                        unique_identifier=__import__(
+                            'kmip.core.attributes', fromlist=['x']
+                        ).UniqueIdentifier(W.resolve('@x')))
+                    opn = E_.Operation.DESTROY
+                msg = messages.RequestMessage(
+                    request_header=hdr, batch_items=[
+                        messages.RequestBatchItem(
+                            operation=contents.Operation(opn),
+                            request_payload=pl)])
+                before = W.dump()
+                try:
+                    resp, _, pv = W.engine.process_request(
+                        msg, ('owner', None))
+                    ok = any(bi.result_status.value ==
+                             E_.ResultStatus.SUCCESS
+                             for bi in resp.batch_items)
+                    out = ('answered', ok, str(pv))
+                except X_.KmipError as e:
+                    out = ('refused', type(e).__name__)
+                return out, W.dump() != before
+            seqs = []
+            for uv in UNSUPPORTED:
+                seqs.append([uv, uv, uv])
+                seqs.append([(1, 2), uv, uv, (2, 0), uv])
+                seqs.append([uv, UNSUPPORTED[0], uv, uv])
+            for seq in seqs:
+                for i, v in enumerate(seq):
+                    for what in ('Query', 'Destroy'):
+                        out, changed = direct(v, what)
+                        results.append((v, what, out))
+                        if tuple(v) in SUPPORTED:
+                            continue
+                        probes['unsupported_version_refused'] += 1
+                        if out[0] != 'refused' or changed:
+                            flag('unsupported-version-accepted-by-engine',
+                                 why=what, version=v, sequence=seq,
+                                 position=i, outcome=out,
+                                 store_changed=changed)
+                    if what == 'Destroy' and '@x' and \
+                            W.resolve('@x') not in [
+                                str(rw[0]) for rw in
+                                W.dump().get('managed_objects', [])]:
+                        break
+            nontrivial = True
         elif plan['kind'] == 'query':
             for st in c13.setup_steps('SymmetricKey', 'Active', r, ctx):
                 W.request(copy.deepcopy(st))
